@@ -43,6 +43,7 @@ type GroupCfg struct {
 	AdvSeed     uint64
 	Overrides   []Override
 	T0          int64
+	Rate        int64 // ns per tick; 0 = 1000
 	Entropy     uint64
 	TickBudget  uint64
 	DepthBudget int
@@ -759,7 +760,13 @@ func Addr(p unsafe.Pointer) uintptr {
 // ---------------------------------------------------------------------------------------------
 // R4: clock and entropy
 
-func (g *Group) nowNs() int64 { return g.cfg.T0 + int64(g.Ticks)*1000 + g.clockExtra }
+func (g *Group) nowNs() int64 {
+	rate := g.cfg.Rate
+	if rate <= 0 {
+		rate = 1000
+	}
+	return g.cfg.T0 + int64(g.Ticks)*rate + g.clockExtra
+}
 
 func Now() time.Time {
 	t := cur
